@@ -25,7 +25,8 @@ import (
 //
 //	cfg cache=<0|1> limit=<n> ext=<0|1> thr=<n> zstd=<0|1>
 //	u <logs> <size> <ok|fail|panic> <wcap> <ecap>            unary call of method "un"
-//	init 0 <ex|pr> <cancel> <prog> <wcap> <ecap>
+//	init 0 <ex|pr> <cancel> <prog> [H<n>] <wcap> <ecap>      H<n>: the method returns a stream header carrying n extra bytes
+//	                                                         (written in front of the data stream when cfg hdr=1; counts against the wire cap)
 //	x 0 <ex|pr> <schema> <vals> <khex>=<val>… <wcap> <ecap>
 //	drain <T<i>> <wcap>                                      last line: follow the tokens to the end
 //
@@ -86,6 +87,7 @@ func ipcMessageSizes(body []byte) (schema int, batches []int, eos int, ok bool) 
 type twinFacts struct {
 	res        *httpResult
 	body       int     // whole response body
+	body0      int     // bytes in front of the data stream (the header stream of an /init answer)
 	sizes      []int   // wire size of every batch (schema message folded into the first)
 	cycles     []int   // batches per handler cycle (logs + data, or 1 for the error batch)
 	bufs       []int64 // buffer size of each cycle's data batch (0: none)
@@ -99,7 +101,7 @@ func (t *twinFacts) bodyAfter(k int) int {
 	if k <= 0 || k >= len(t.cycles) {
 		return t.body
 	}
-	n, total := 0, 0
+	n, total := 0, t.body0
 	for i := 0; i < k; i++ {
 		n += t.cycles[i]
 	}
@@ -132,14 +134,19 @@ func (e *c19Env) measure(path string, body []byte) *twinFacts {
 	e.real.rec.take()
 	res := e.twin.post(0, path, body, nil)
 	calls := append(e.twin.rec.take(), e.real.rec.take()...)
-	f := &twinFacts{body: len(res.body), res: res}
-	schema, sizes, eos, _ := ipcMessageSizes(res.body)
+	f := &twinFacts{body: len(res.body), res: res, body0: headerStreamLen(res.body)}
+	schema, sizes, eos, _ := ipcMessageSizes(res.body[f.body0:])
 	f.eos = eos
 	if len(sizes) > 0 {
 		sizes[0] += schema
 	}
 	f.sizes = sizes
 	bi := 0
+	if f.body0 > 0 {
+		for bi < len(res.batches) && res.batches[bi].stream == 0 {
+			bi++ // the header stream's batches
+		}
+	}
 	up := upBefore
 	for _, c := range calls {
 		if c.Kind == "cancel" {
@@ -435,8 +442,21 @@ func c19Exec(c *Case) {
 			var body, twinBody []byte
 			route := core[2]
 			var keys, values []string
+			hasHdrWord := false
 			if f[0] == "init" {
-				if len(core) != 5 || (route != "ex" && route != "pr") {
+				hdr, hpad := int64(0), int64(0)
+				if len(core) == 6 && len(core[5]) >= 2 && core[5][0] == 'H' {
+					n, err := strconv.ParseInt(core[5][1:], 10, 64)
+					if err != nil || n < 0 || n > 1<<22 {
+						c.Out(l, "err:bad-line")
+						continue
+					}
+					hdr, hpad, hasHdrWord = 1, n, true
+				} else if len(core) != 5 {
+					c.Out(l, "err:bad-line")
+					continue
+				}
+				if route != "ex" && route != "pr" {
 					c.Out(l, "err:bad-line")
 					continue
 				}
@@ -445,8 +465,8 @@ func c19Exec(c *Case) {
 					continue
 				}
 				path = "/" + route + "/init"
-				body = e.real.initBody(route, core[3], core[4])
-				twinBody = e.twin.initBody(route, core[3], core[4])
+				body = e.real.initBodyPad(route, "", hdr, hpad, false, core[3], core[4])
+				twinBody = e.twin.initBodyPad(route, "", hdr, hpad, false, core[3], core[4])
 			} else {
 				vals, okv := parseVals(core[4])
 				var okm bool
@@ -480,7 +500,7 @@ func c19Exec(c *Case) {
 			// the twin supplies the sizes of the batches beyond those.
 			sizes := append([]int(nil), tw.sizes...)
 			if route == "pr" {
-				rs, rb, _, _ := ipcMessageSizes(rf.res.body)
+				rs, rb, _, _ := ipcMessageSizes(rf.res.body[headerStreamLen(rf.res.body):])
 				if len(rb) > 0 {
 					rb[0] += rs
 				}
@@ -495,9 +515,21 @@ func c19Exec(c *Case) {
 				}
 			}
 			c.Stat(f[0] + "-" + route)
-			c.Out(fmt.Sprintf("%s maxresp=%d maxext=%d wire=%d bufs=%s raws=%s sizes=%s", strings.Join(core, " "), w, x, rf.wire,
-				joinInts(tw.bufs), joinInts(raws), joinInts(sizes)),
-				out+" | "+posEvents(rf.calls)+fmt.Sprintf(" | up=%d", len(rf.uploads)))
+			envWords := fmt.Sprintf("maxresp=%d maxext=%d wire=%d bufs=%s raws=%s sizes=%s", w, x, rf.wire,
+				joinInts(tw.bufs), joinInts(raws), joinInts(sizes))
+			if hasHdrWord {
+				// bytes already in the response buffer when the produce loop starts: the header stream
+				envWords += fmt.Sprintf(" body0=%d", tw.body0)
+			}
+			c.Out(strings.Join(core, " ")+" "+envWords, out+" | "+posEvents(rf.calls)+fmt.Sprintf(" | up=%d", len(rf.uploads)))
+			if hasHdrWord {
+				if tw.body0 > 0 {
+					c.Stat("init-with-header")
+				}
+				if rb0 := headerStreamLen(rf.res.body); rf.res.status == 200 && rb0 != tw.body0 {
+					c.Oracle("header-stream-size-differs", fmt.Sprintf("%q: header stream is %d bytes on the capped server, %d on the twin", l, rb0, tw.body0))
+				}
+			}
 			if route == "ex" && f[0] == "x" {
 				buf := int64(0)
 				if len(tw.bufs) > 0 {
@@ -610,7 +642,10 @@ func c19ProducerOracle(c *Case, e *c19Env, l string, w, x int64, rf *realFacts, 
 	if res.status != 200 || !res.parseOK {
 		return
 	}
-	schema, sizes, _, _ := ipcMessageSizes(res.body)
+	// the cap is on the whole response body: what stands in front of the data stream (the stream
+	// header of an /init answer) counts as much as the batches
+	body0 := headerStreamLen(res.body)
+	schema, sizes, _, _ := ipcMessageSizes(res.body[body0:])
 	if len(sizes) > 0 {
 		sizes[0] += schema
 	}
@@ -647,7 +682,7 @@ func c19ProducerOracle(c *Case, e *c19Env, l string, w, x int64, rf *realFacts, 
 		return
 	}
 	// body before each cycle after the first must be under the cap (the loop may not go on at/over it)
-	prefix, bi := 0, 0
+	prefix, bi := body0, 0
 	for ci, n := range cycles {
 		if ci > 0 && w > 0 && int64(prefix) >= w {
 			c.Oracle("producer-continued-past-wire-cap", fmt.Sprintf("%q: cycle %d started with %d body bytes, max_response_bytes=%d", l, ci, prefix, w))
